@@ -21,9 +21,9 @@ EXHAUSTIVE = {"quick": True, "thorough": True}
 SHARD_BYTES = 100_000
 
 COQ_HEADER = """From Coq Require Import List ZArith PrimFloat String.
-From LaPyV Require Import Base.Scalar Base.Vec3 Base.ListAux Model.TetMesh Model.TriaAdj Model.IOText Chk.Cmp Chk.C09 Chk.C14.
+From LaPyV Require Import Base.Scalar Base.Vec3 Base.ListAux Model.TetMesh Model.TriaAdj Model.IOText Model.IOFs Chk.Cmp Chk.C09 Chk.C14.
 Import ListNotations. Open Scope float_scope."""
-COQ_CHECK = "check_c14"
+COQ_CHECK = "check_c14_multi"
 COQ_LABELS = ["writer_tokens", "reader_result"]
 
 
@@ -60,7 +60,7 @@ def generate(rng, tier):
             v, t = gm.add_unused(v, t, rng)
         hdr = None
         if rng.random() < 0.6:
-            hdr = {"head": [2, 0, 20], "valid": "1  # volume info valid", "filename": "../mri/filled-pretess255.mgz",
+            hdr = {"head": rng.choice([[2, 0, 20], [2, 0, 20], [20]]), "valid": "1  # volume info valid", "filename": "../mri/filled-pretess255.mgz",
                    "volume": [256, 256, 256], "voxelsize": [1.0, 1.0, 1.0], "xras": [-1.0, 0.0, 0.0], "yras": [0.0, 0.0, -1.0],
                    "zras": [0.0, 1.0, 0.0], "cras": [rng.uniform(-5, 5), rng.uniform(-20, 20), 3.5]}
         cases.append({"ctype": "tria", "family": "tria_" + fam + "_" + mode, "v": v, "t": t,
@@ -179,6 +179,131 @@ def _truncations(text, reader, v32, t, first_data_line, last_data_line):
     return bad
 
 
+
+# ---------------------------------------------------------------- FreeSurfer surface files as field streams (independent of lapy)
+FS_KEYS = ["valid", "filename", "volume", "voxelsize", "xras", "yras", "zras", "cras"]
+
+
+def fs_fields(raw):
+    """Split the bytes of a FreeSurfer triangle file into fields following the format definition; a field cut short by a
+    truncation is dropped together with everything behind it."""
+    import struct
+    out = []
+    if len(raw) < 3:
+        return out
+    out.append(("magic", raw[0], raw[1], raw[2]))
+    pos = 3
+    nl = raw.find(b"\n", pos)
+    if nl < 0:
+        return out
+    out.append(("line", raw[pos:nl].decode("utf-8", "replace")))
+    pos = nl + 1
+    if raw[pos:pos + 1] == b"\n":
+        out.append(("line", ""))
+        pos += 1
+    cnt = []
+    for _ in range(2):
+        if pos + 4 > len(raw):
+            return out
+        z = struct.unpack(">i", raw[pos:pos + 4])[0]
+        out.append(("i32", z))
+        cnt.append(z)
+        pos += 4
+    for _ in range(3 * max(cnt[0], 0)):
+        if pos + 4 > len(raw):
+            return out
+        out.append(("f32", struct.unpack(">f", raw[pos:pos + 4])[0]))
+        pos += 4
+    for _ in range(3 * max(cnt[1], 0)):
+        if pos + 4 > len(raw):
+            return out
+        out.append(("i32", struct.unpack(">i", raw[pos:pos + 4])[0]))
+        pos += 4
+    # footer: 1 or 3 int32, then "key = value" lines
+    if pos + 4 > len(raw):
+        return out
+    h = struct.unpack(">i", raw[pos:pos + 4])[0]
+    out.append(("i32", h))
+    pos += 4
+    if h != 20:
+        for _ in range(2):
+            if pos + 4 > len(raw):
+                return out
+            out.append(("i32", struct.unpack(">i", raw[pos:pos + 4])[0]))
+            pos += 4
+    while pos < len(raw):
+        nl = raw.find(b"\n", pos)
+        if nl < 0:
+            break
+        line = raw[pos:nl].decode("utf-8", "replace")
+        pos = nl + 1
+        if "=" not in line:
+            out.append(("line", line))
+            continue
+        key, val = line.split("=", 1)
+        key = key.strip()
+        if key in ("valid", "filename"):
+            out.append(("key", key, ("str", val.strip())))
+        elif key == "volume":
+            out.append(("key", key, ("ints", [int(x) for x in val.split()])))
+        else:
+            out.append(("key", key, ("floats", [float(x) for x in val.split()])))
+    return out
+
+
+def _cfield(f):
+    if f[0] == "magic":
+        return "(FMagic %d%%nat %d%%nat %d%%nat)" % (f[1], f[2], f[3])
+    if f[0] == "line":
+        return "(FLine %s)" % core.cstring(f[1])
+    if f[0] == "i32":
+        return "(FI32 %s)" % core.cz(f[1])
+    if f[0] == "f32":
+        return "(FF32 %s)" % core.cfloat(f[1])
+    k, pl = f[1], f[2]
+    if pl[0] == "str":
+        return "(FKey %s (PStr %s))" % (core.cstring(k), core.cstring(pl[1]))
+    if pl[0] == "ints":
+        return "(FKey %s (PInts %s))" % (core.cstring(k), core.czlist(pl[1]))
+    return "(FKey %s (PFloats %s))" % (core.cstring(k), core.cflist(pl[1]))
+
+
+def _cfields(fs):
+    return "[" + "; ".join(_cfield(f) for f in fs) + "]"
+
+
+def _cinfo(d):
+    """header dictionary -> Coq record; None for None / empty"""
+    if not d:
+        return "None"
+    g = lambda k: [float(x) for x in np.asarray(d[k], dtype=float).ravel()]
+    return ("(Some {| fs_head := %s; fs_valid := %s; fs_filename := %s; fs_volume := %s; fs_voxelsize := %s; fs_xras := %s; "
+            "fs_yras := %s; fs_zras := %s; fs_cras := %s |})") % (
+        core.czlist([int(x) for x in np.asarray(d["head"]).ravel()]), core.cstring(str(d["valid"])), core.cstring(str(d["filename"])),
+        core.czlist([int(x) for x in np.asarray(d["volume"]).ravel()]), core.cflist(g("voxelsize")), core.cflist(g("xras")),
+        core.cflist(g("yras")), core.cflist(g("zras")), core.cflist(g("cras")))
+
+
+def _fmt10(d):
+    """the header as nibabel formats it: floats with %.10g"""
+    if d is None:
+        return None
+    o = dict(d)
+    for k in ("voxelsize", "xras", "yras", "zras", "cras"):
+        o[k] = [float("%.10g" % float(x)) for x in d[k]]
+    return o
+
+
+def _fsobs(r):
+    if r is None:
+        return None
+    info = r.fsinfo
+    d = None
+    if info is not None and len(info) > 0:
+        d = {k: (np.asarray(x).tolist() if not isinstance(x, str) else x) for k, x in info.items()}
+    return [np.asarray(r.v, dtype=float).tolist(), np.asarray(r.t).astype(int).tolist(), d]
+
+
 def run_impl(case):
     from lapy import TetMesh, TriaMesh
     from lapy import io as lio
@@ -234,6 +359,21 @@ def run_impl(case):
                         okh = hi is not None and all(k in hi and _heq(hi[k], x) for k, x in case["fsinfo"].items())
                         out["fs_hdr"] = "ok" if okh else "header differs"
                 raw = open(fs, "rb").read()
+                out["fs_fields"] = fs_fields(raw)
+                fsreads = [[out["fs_fields"], _fsobs(r)]]
+                # wrong magic number; truncations at arbitrary byte positions (header, vertex and face arrays, footer)
+                variants = [bytes([raw[0], raw[1], 253]) + raw[3:], b"\xff\xff\xff" + raw[3:]]
+                nvb = 3 + len(raw[3:].split(b"\n", 1)[0]) + 2
+                for cut in (2, nvb + 3, nvb + 8 + 5, nvb + 8 + 12 * len(v) // 2 + 1, nvb + 8 + 12 * len(v) + 12 * len(t) // 2 + 2,
+                            nvb + 8 + 12 * len(v) + 12 * len(t) - 1, nvb + 8 + 12 * len(v) + 12 * len(t)):
+                    if 0 < cut < len(raw):
+                        variants.append(raw[:cut])
+                for q, vb in enumerate(variants):
+                    fq = os.path.join(d, "var%d.surf" % q)
+                    open(fq, "wb").write(vb)
+                    rq, _e = _try(lambda: TriaMesh.read_fssurf(fq))
+                    fsreads.append([fs_fields(vb), _fsobs(rq)])
+                out["fs_reads"] = fsreads
                 # truncation of the binary file inside the vertex / face arrays
                 badb = []
                 for cut in (len(raw) // 4, len(raw) // 2, len(raw) * 3 // 4):
@@ -400,7 +540,19 @@ def coq_case(case, out):
     written = ("(TetRes %s %s)" if case["ctype"] == "tet" else "(TriaRes %s %s)") % (core.cv3list(v), core.ctuples(case["t"]))
     reads = "[" + "; ".join("(%s, %s, %s)" % (kmap[k], tokens(txt, True), _meshres(k, r)) for k, txt, r in out["files"]) + "]"
     # a float32 coordinate is written with its shortest float32 repr: compare after rounding the token to float32
-    return "(MeshFiles %s %s %s)" % (written, tokens(out["vtk_text"], case["vdtype"] == "float32"), reads)
+    parts = ["MeshFiles %s %s %s" % (written, tokens(out["vtk_text"], case["vdtype"] == "float32"), reads)]
+    if case["ctype"] == "tria" and "fs_fields" in out:
+        v32 = np.array(case["v"], dtype=case["vdtype"]).astype(np.float32).astype(float).tolist()
+        stamp = next((f[1] for f in out["fs_fields"] if f[0] == "line"), "")
+
+        def obs(o):
+            if o is None:
+                return "FsNone"
+            return "(FsMesh %s %s %s)" % (core.cv3list(o[0]), core.ctuples(o[1]), _cinfo(o[2]))
+        rd = "[" + "; ".join("(%s, %s)" % (_cfields(f), obs(o)) for f, o in out["fs_reads"]) + "]"
+        parts.append("FsFiles %s %s %s %s %s %s" % (core.cstring(stamp), core.cv3list(v32), core.ctuples(case["t"]),
+                                                   _cinfo(_fmt10(case["fsinfo"])), _cfields(out["fs_fields"]), rd))
+    return "[" + "; ".join(parts) + "]"
 
 
 def oracle(case, out):
